@@ -12,6 +12,11 @@ import LdkModel.Model.ChainView
          lout <oid> <parent tx>                            output whose claim is time-locked -> ok
          initclaim <oid> <creation> | initlocked <oid>     bookkeeping present before the first op -> ok
          pre <p>                                           provide_payment_preimage          -> as block/conf/…
+         usnap                                             remember the state (before a run of unconf ops) -> ok
+         upred <h> <ids…>   the CLOSED FORM the theorems give for unconfirming <ids> (fork point <h>) from the
+                            remembered state: unconfirmedTo / unconfirmedClaims / handler entries <= h; and
+                            whether replaying the ids from the remembered state (unconfOps / cUnconfOps) ends there
+            -> best=… aw=… mat=… claims=… haw=… pre=… lk=… closed=<true|false>
          cv [label]   -> claims=<oid.creation,…|-> haw=<tx.height,…|-> pre=<p,…|-> lk=<oid,…|->   (sorted) -/
 namespace Ldk.Driver
 open Ldk Ldk.ChainView
@@ -22,6 +27,8 @@ structure C11State where
   spends : List (Nat × List Nat) := []
   locked : List (Nat × Nat) := []
   cs : CSt := cinit 0
+  /-- the state when the last `usnap` was given (before a run of `unconf` ops) -/
+  snap : CSt := cinit 0
 
 def C11State.st (s : C11State) : St := s.cs.st
 def C11State.K (s : C11State) : ClaimCat := { outs := s.outs, spends := fun t => (s.spends.lookup t).getD [], locked := s.locked }
@@ -70,6 +77,17 @@ def c11Step (s : C11State) (ws : List String) : C11State × String :=
   | ["initclaim", o, c] => ({ s with cs := { s.cs with claims := s.cs.claims ++ [{ out := nat! o, creation := nat! c }] } }, "ok")
   | ["pre", p] => goC (.preimage (nat! p))
   | "cv" :: _ => (s, showC s.cs)
+  | ["usnap"] => ({ s with snap := s.cs }, "ok")
+  | "upred" :: h :: ids =>
+    let hh := nat! h
+    let us := ids.map nat!
+    let st' := unconfirmedTo s.snap.st hh
+    let c' : CSt := { s.snap with st := st', claims := unconfirmedClaims s.snap.claims s.snap.hAw hh,
+                                  hAw := s.snap.hAw.filter (fun e => decide (e.height ≤ hh)), locked := s.cs.locked }
+    let r := ChainView.crun (c11Cat s.cat) s.K s.snap (cUnconfOps us)
+    let closed := decide (ChainView.run (c11Cat s.cat) s.snap.st (unconfOps us) = st') && decide (r.st = st') &&
+      decide (r.claims = c'.claims) && decide (r.hAw = c'.hAw) && decide (r.pre = c'.pre)
+    (s, s!"{showSt st'} {showC c'} closed={closed}")
   | "block" :: h :: ids => go (.blockConnected (nat! h) (ids.map nat!))
   | "conf" :: h :: ids => go (.txsConfirmed (nat! h) (ids.map nat!))
   | ["best", h] => go (.bestBlock (nat! h))
